@@ -4,10 +4,18 @@
     thiscall when the function has a receiver, else system.  Proved for impl functions and virtual
     functions alike: the resolved function record carries exactly [cc_spec f]; an unknown name is
     rejected; placeholder slots are thiscall.  The same record is what fills the vftable slot
-    ([function_to_region] copies [sf_cc] into the fn-pointer type) and what the wrapper prints. *)
+    ([function_to_region] copies [sf_cc] into the fn-pointer type) and what the wrapper prints.
+    On the emitted text (EmitFn*.v): [C16_fnptr_abi_read_back]: the ABI string read back from the
+    tokens of a printed fn-pointer type is [cc_to_string] of its convention, and names it
+    ([cc_of_string]); [C16_emitted_slot_abi]: every slot field of an emitted vftable struct carries
+    the convention of its function record; with [C04_emitted_vftable_struct] and
+    [C05_emitted_impl_function] (whose ABI is [cc_spec] of the declaration) this is C16 on the
+    text of the accepted build. *)
 From Coq Require Import List NArith ZArith Bool String.
 From PyxisModel Require Import Base Grammar SemTypes Registry Sem FunctionLemmas WholeBuild.
 Import ListNotations.
+
+From PyxisModel Require EmitReaders EmitFnReaders EmitFnShape EmitFnFinal.
 
 Theorem C16_main : forall R scope is_vfunc f sf,
   function_build R scope is_vfunc f = Ok sf -> cc_spec f = Some (sf_cc sf).
@@ -70,3 +78,23 @@ Proof.
   inversion Hf. reflexivity.
 Qed.
 Print Assumptions C16_whole_build.
+
+Theorem C16_fnptr_abi_read_back :
+  forall (c : cc) (args : list (string * stype)) (ret : option stype),
+    EmitFnReaders.fnptr_abi (Emit.type_tokens (TFunction c args ret)) = Some (cc_to_string c) /\
+    EmitFnReaders.fnptr_cc (Emit.type_tokens (TFunction c args ret)) = Some c.
+Proof. exact EmitFnShape.fnptr_abi_correct. Qed.
+Print Assumptions C16_fnptr_abi_read_back.
+
+Theorem C16_emitted_slot_abi :
+  forall (R : registry) (fuel : nat) (owner : path) (size alignment : N) (v : vis) 
+      (td : type_def) (fs : list sfunction) (vp : path) (items : list Sexp.sexp),
+    td_regions td = map (function_to_region owner) fs ->
+    Emit.build_type R fuel vp size alignment v td = Ok items ->
+    exists (name : string) (s : Sexp.sexp) (rest : list Sexp.sexp) (efs : list EmitReaders.efield),
+      path_last vp = Some name /\
+      items = s :: rest /\
+      EmitShape.struct_shape name alignment v td s /\
+      EmitReaders.struct_fields s = Some efs /\ Forall2 (EmitFnShape.slot_of_function owner) fs efs.
+Proof. exact EmitFnShape.vftable_struct_shape. Qed.
+Print Assumptions C16_emitted_slot_abi.
